@@ -114,6 +114,8 @@ fn verif_rx_watermark_reachable() {
     core::mem::forget(conn);
 }
 
+#[path = "/verif/harness/transport/rx_stream.rs"] mod rx_stream;
+
 // ---- generated by tools/fixup.py: native replay entry ----
 #[cfg(not(kani))]
 #[test]
